@@ -287,7 +287,7 @@ func addLineText(p *lineParser) {
 		// leading spaces and tabs are not part of the text.
 		p.ConsumeIndent(p.Indent())
 	case blockRules[k].acceptsLines:
-		if p.i < len(p.line) && p.line[p.i] == '\t' && p.tabRemaining > 0 && p.tabRemaining < tabStopSize {
+		if p.i < len(p.line) && p.line[p.i] == '\t' && p.tabRemaining > 0 && p.tabPartial {
 			p.container.inlineChildren = append(p.container.inlineChildren, &Inline{
 				kind:   IndentKind,
 				indent: int(p.tabRemaining),
